@@ -198,7 +198,26 @@ _COV = re.compile(r'^<(\w+) line \d+, col \d+ to line \d+, col \d+ of module (\w
 def _parse(out, res, want_beh=True):
     intrace = False
     tr = []
-    for line in out.splitlines():
+    lines = out.splitlines()
+    # TLC breaks a long tuple over several lines (<< "TAG",\n   "payload" >>): join those back into the one-line form
+    joined = []
+    i = 0
+    while i < len(lines):
+        ln = lines[i]
+        if ln.startswith('<< "') and not ln.rstrip().endswith('>>'):
+            j = i
+            buf = ln.strip()
+            while not buf.endswith('>>') and j + 1 < len(lines):
+                j += 1
+                buf += ' ' + lines[j].strip()
+            m2 = re.match(r'^<< "([A-Z]+)", "(.*)" >>$', buf)
+            if m2:
+                joined.append('<<"%s", "%s">>' % (m2.group(1), m2.group(2)))
+                i = j + 1
+                continue
+        joined.append(ln)
+        i += 1
+    for line in joined:
         if line.startswith('<<"'):
             m = _BEH_RE.match(line)
             if m:
